@@ -13,16 +13,16 @@ def mono_meta_cut : Bool := true
 def mono_mincut : Bool := true
 def shape_cached_descent_min : Bool := true
 def shape_chase_inherits_lineage : Bool := true
-def shape_ds_bounds_lease : Bool := false
+def shape_ds_bounds_lease : Bool := true
 def shape_hit_does_not_store : Bool := true
-def shape_lease_anchored_at_observation : Bool := false
-def shape_lease_clamped_at_observation : Bool := false
+def shape_lease_anchored_at_observation : Bool := true
+def shape_lease_clamped_at_observation : Bool := true
 def shape_notecut_after_each_cut : Bool := true
-def shape_observed_before_validate : Bool := false
+def shape_observed_before_validate : Bool := true
 def shape_provisional_bounded_by_cut : Bool := true
 def shape_seed_min : Bool := true
 def shape_setuntil_from_mincut : Bool := true
-def shape_single_clock_read : Bool := false
+def shape_single_clock_read : Bool := true
 def shape_subquery_stores_cut : Bool := true
 def shape_validreferral_before_setuntil : Bool := true
 def wallstep_fabrication_works : Bool := true
